@@ -156,6 +156,18 @@ def need_flags():
     out.append(("scan/need_flags/Step.detach.flags_sources", "arg:RECURSIVE_CHECK_AFTER_SOURCES" in det, str(det)))
     rea = _calls_in("stepup/core/step.py", "Step.reattach")
     out.append(("scan/need_flags/Step.reattach.flags_products", "_flag_checks_with_products" in rea, str(rea)))
+    # the two recursive flagging statements are assumed closures: pinned to the text the assumption was written for
+    from vc.report import VERIF
+
+    for const in ("RECURSIVE_CHECK_WITH_PRODUCTS", "RECURSIVE_CHECK_AFTER_SOURCES"):
+        try:
+            now = sqlfront.normalize(extract.module_constant("stepup/core/step.py", const))
+        except extract.ExtractError as e:
+            out.append((f"scan/need_flags/closure_text/{const}", False, str(e)))
+            continue
+        with open(os.path.join(VERIF, "specs", "sql", const.lower() + ".sql")) as fh:
+            want = sqlfront.normalize(fh.read())
+        out.append((f"scan/need_flags/closure_text/{const}", now == want, f"{const} differs from specs/sql/{const.lower()}.sql"))
     flag = sqlfront.normalize(extract.module_constant("stepup/core/step.py", "RECURSIVE_CHECK_WITH_PRODUCTS"))
     out.append(("scan/need_flags/products_statement_sets_check_after", "_check_after = 1" in flag or "_check_after = TRUE" in flag, flag[-200:]))
     upd = sqlfront.normalize(extract.module_constant("stepup/core/scheduler.py", "UPDATE_CHECK_AFTER"))
